@@ -36,6 +36,8 @@ type c03Case struct {
 	NotFound   bool       `json:"nf,omitempty"` // custom not-found handler installed
 	NotAllowed bool       `json:"na,omitempty"` // custom not-allowed handler installed
 	Reqs       []c03Route `json:"reqs"`
+	W          bool       `json:"w,omitempty"` // generated with the wide segment alphabet
+	D          bool       `json:"d,omitempty"` // generated with deep patterns (up to 64 segments)
 }
 
 var c03ValidMethods = map[string]bool{
@@ -109,6 +111,15 @@ func c03Interp(c c03Case) (v kit.Verdict) {
 	phases := append([]c03Phase{{Routes: c.Routes, Reqs: c.Reqs}}, c.More...)
 	if len(c.More) > 0 {
 		classes["register-after-serving"] = true
+	}
+	if c.W {
+		classes["wide-alphabet"] = true
+	}
+	if c.D {
+		classes["deep-patterns"] = true
+	}
+	if len(c.Routes) > 100 {
+		classes["many-routes"] = true
 	}
 	for _, ph := range phases {
 		base := len(allRoutes)
@@ -295,10 +306,33 @@ func c03Keys2(m map[string]bool) []string {
 var (
 	c03Lits   = []string{"a", "b", "c", "a:b", "ab"}
 	c03Params = []string{":x", ":y", ":z", ":", ":a"}
+	// wide alphabet (a quarter of the random cases): case, punctuation, glob/format/template
+	// metacharacters, escapes that must NOT be decoded again, non-ASCII, dot runs, a long segment
+	c03LitsWide   = []string{"a", "A", "b", "B", "a.b", "a-b", "a b", "ä", "*", "{id}", "%41", "%2F", "a+b", "..a", "a..", "...", "a:b", "%s", "a?b", "a#b", strings.Repeat("longseg", 43)}
+	c03ParamsWide = []string{":x", ":X", ":id", ":x-y", ":名", ":x.y"}
 )
+
+// c03Wide / c03Deep are set by c03Gen for the case being generated (generation is sequential).
+var c03Wide, c03Deep bool
+
+func c03FlipCase(s string) string {
+	b := []byte(s)
+	for i, ch := range b {
+		switch {
+		case ch >= 'a' && ch <= 'z':
+			b[i] = ch - 32
+		case ch >= 'A' && ch <= 'Z':
+			b[i] = ch + 32
+		}
+	}
+	return string(b)
+}
 
 func c03GenPattern(rt *rapid.T) string {
 	depth := rapid.IntRange(0, 4).Draw(rt, "depth")
+	if c03Deep && rapid.Bool().Draw(rt, "deeper") {
+		depth = rapid.SampledFrom([]int{8, 16, 31, 32, 33, 64}).Draw(rt, "deepdepth")
+	}
 	if depth == 0 {
 		return rapid.SampledFrom([]string{"/", "/", "//", "/.", "/a/.."}).Draw(rt, "root")
 	}
@@ -306,9 +340,17 @@ func c03GenPattern(rt *rapid.T) string {
 	for i := 0; i < depth; i++ {
 		sb.WriteString(rapid.SampledFrom([]string{"/", "/", "/", "/", "//", "/./"}).Draw(rt, "sep"))
 		if rapid.IntRange(0, 9).Draw(rt, "isparam") < 4 {
-			sb.WriteString(rapid.SampledFrom(c03Params[:3+rapid.IntRange(0, 2).Draw(rt, "pw")]).Draw(rt, "param"))
+			if c03Wide && rapid.Bool().Draw(rt, "wp") {
+				sb.WriteString(rapid.SampledFrom(c03ParamsWide).Draw(rt, "wparam"))
+			} else {
+				sb.WriteString(rapid.SampledFrom(c03Params[:3+rapid.IntRange(0, 2).Draw(rt, "pw")]).Draw(rt, "param"))
+			}
 		} else {
-			sb.WriteString(rapid.SampledFrom(c03Lits[:3+rapid.IntRange(0, 2).Draw(rt, "lw")]).Draw(rt, "lit"))
+			if c03Wide && rapid.Bool().Draw(rt, "wl") {
+				sb.WriteString(rapid.SampledFrom(c03LitsWide).Draw(rt, "wlit"))
+			} else {
+				sb.WriteString(rapid.SampledFrom(c03Lits[:3+rapid.IntRange(0, 2).Draw(rt, "lw")]).Draw(rt, "lit"))
+			}
 		}
 	}
 	if rapid.IntRange(0, 7).Draw(rt, "trail") == 0 {
@@ -325,7 +367,13 @@ func c03GenReqPath(rt *rapid.T, routes []c03Route) string {
 		if len(r.P) > 0 && r.P[0] == '/' {
 			for _, s := range c03Segs(r.P) {
 				if len(s) > 0 && s[0] == ':' {
-					s = rapid.SampledFrom([]string{"a", "b", "c", "d", ":x", "ab"}).Draw(rt, "subst")
+					if c03Wide && rapid.Bool().Draw(rt, "wsubst") {
+						s = rapid.SampledFrom(c03LitsWide).Draw(rt, "wsub")
+					} else {
+						s = rapid.SampledFrom([]string{"a", "b", "c", "d", ":x", "ab"}).Draw(rt, "subst")
+					}
+				} else if c03Wide && rapid.IntRange(0, 5).Draw(rt, "flip") == 0 {
+					s = c03FlipCase(s) // the router is case-sensitive: "/A" is not "/a"
 				} else if rapid.IntRange(0, 9).Draw(rt, "mut") == 0 {
 					s = rapid.SampledFrom([]string{"a", "b", "c", "d"}).Draw(rt, "mutseg")
 				}
@@ -367,7 +415,13 @@ func c03Gen(rt *rapid.T) c03Case {
 	var c c03Case
 	methods := []string{"GET", "GET", "GET", "POST", "POST", "PUT", "DELETE", "HEAD", "OPTIONS", "PATCH"}
 	bad := []string{"TRACE", "get", "", "CONNECT", "Post"}
+	c.W = rapid.IntRange(0, 3).Draw(rt, "wide") == 0
+	c.D = rapid.IntRange(0, 9).Draw(rt, "deep") == 0
+	c03Wide, c03Deep = c.W, c.D
 	n := rapid.IntRange(0, 12).Draw(rt, "nroutes")
+	if rapid.IntRange(0, 59).Draw(rt, "many") == 0 { // a service-sized table
+		n = rapid.SampledFrom([]int{100, 255, 256, 300}).Draw(rt, "manyroutes")
+	}
 	for i := 0; i < n; i++ {
 		var r c03Route
 		if rapid.IntRange(0, 14).Draw(rt, "badm") == 0 {
